@@ -154,6 +154,62 @@ Qed.
 Lemma get_zip_def_default : get_zip None "DEF"%string = Ok tt.
 Proof. vm_compute. reflexivity. Qed.
 
+(* ---------- the zip step of perform_encrypt ---------- *)
+Lemma encrypt_leaves_plaintext : forall (zcomp : bytes -> bytes) ence allowed obj cek iv aad obj',
+  fst (encrypt_tailL zcomp ence allowed obj cek iv aad) = Ok obj' ->
+  em_plaintext obj' = em_plaintext obj /\ em_zip obj' = em_zip obj /\
+  exists m, ence m cek iv aad = Ok (em_ciphertext obj', em_tag obj') /\
+    (em_zip obj = None -> m = em_plaintext obj) /\
+    (forall name, em_zip obj = Some name ->
+       get_zip allowed name = Ok tt /\ m = compress zcomp (em_plaintext obj)).
+Proof.
+  intros zcomp ence allowed obj cek iv aad obj'. unfold encrypt_tailL.
+  destruct (em_zip obj) as [name|] eqn:Z.
+  - destruct (get_zip allowed name) as [[]|e] eqn:G; [|discriminate].
+    destruct (ence (compress zcomp (em_plaintext obj)) cek iv aad) as [[ct tag]|e] eqn:E; [|discriminate].
+    simpl. intros H. inversion H; subst; simpl. repeat split; try reflexivity.
+    exists (compress zcomp (em_plaintext obj)). split; [exact E|]. split; [discriminate|].
+    intros n Hn. inversion Hn; subst. split; [exact G|reflexivity].
+  - destruct (ence (em_plaintext obj) cek iv aad) as [[ct tag]|e] eqn:E; [|discriminate].
+    simpl. intros H. inversion H; subst; simpl. repeat split; try reflexivity.
+    exists (em_plaintext obj). split; [exact E|]. split; [reflexivity|discriminate].
+Qed.
+
+(* what is compressed and what is handed to enc.encrypt depends on the
+   plaintext and zip fields only *)
+Lemma encrypt_trace_fields : forall (zcomp : bytes -> bytes) ence allowed a b cek iv aad,
+  em_plaintext a = em_plaintext b -> em_zip a = em_zip b ->
+  snd (encrypt_tailL zcomp ence allowed a cek iv aad) =
+  snd (encrypt_tailL zcomp ence allowed b cek iv aad).
+Proof.
+  intros zcomp ence allowed a b cek iv aad P Z. unfold encrypt_tailL. rewrite P, Z.
+  destruct (em_zip b) as [name|].
+  - destruct (get_zip allowed name) as [[]|e]; [|reflexivity].
+    destruct (ence (compress zcomp (em_plaintext b)) cek iv aad) as [[ct tag]|e]; reflexivity.
+  - destruct (ence (em_plaintext b) cek iv aad) as [[ct tag]|e]; reflexivity.
+Qed.
+
+Lemma encrypt_again_same_trace : forall (zcomp : bytes -> bytes) ence allowed obj cek iv aad obj' cek2 iv2 aad2,
+  fst (encrypt_tailL zcomp ence allowed obj cek iv aad) = Ok obj' ->
+  snd (encrypt_tailL zcomp ence allowed obj' cek2 iv2 aad2) =
+  snd (encrypt_tailL zcomp ence allowed obj cek2 iv2 aad2).
+Proof.
+  intros. apply encrypt_leaves_plaintext in H. destruct H as [P [Z _]].
+  apply encrypt_trace_fields; assumption.
+Qed.
+
+Lemma encrypt_trace_shape : forall (zcomp : bytes -> bytes) ence allowed obj cek iv aad,
+  let t := snd (encrypt_tailL zcomp ence allowed obj cek iv aad) in
+  t = [] \/ t = [EvEncrypt (em_plaintext obj)] \/
+  t = [EvCompress (em_plaintext obj); EvEncrypt (compress zcomp (em_plaintext obj))].
+Proof.
+  intros zcomp ence allowed obj cek iv aad. unfold encrypt_tailL.
+  destruct (em_zip obj) as [name|].
+  - destruct (get_zip allowed name) as [[]|e]; [|left; reflexivity].
+    destruct (ence (compress zcomp (em_plaintext obj)) cek iv aad) as [[ct tag]|e]; right; right; reflexivity.
+  - destruct (ence (em_plaintext obj) cek iv aad) as [[ct tag]|e]; right; left; reflexivity.
+Qed.
+
 (* ---------- under the zlib contract ---------- *)
 Section Contract.
   Variable inflate_all : bool -> bytes -> option (bytes * bool).
@@ -278,6 +334,39 @@ Section Contract.
     intros p L. destruct (z_wrapped_inverse _ _ _ _ ZOK p) as [W I].
     apply zlib_header_accepted; [exact W| |exact L].
     unfold expansion_of. rewrite I. reflexivity.
+  Qed.
+
+  (* encrypt then decrypt gives back the object's plaintext, and the object
+     still holds it (so does every further encrypt of the same object) *)
+  Lemma encrypt_decrypt_rt : forall ence encd allowed obj name cek iv aad obj',
+    (forall m ct tag, ence m cek iv aad = Ok (ct, tag) -> encd ct tag cek iv aad = Ok m) ->
+    em_zip obj = Some name -> blen (em_plaintext obj) <= zip_max_size ->
+    fst (encrypt_tailL zcomp ence allowed obj cek iv aad) = Ok obj' ->
+    em_plaintext obj' = em_plaintext obj /\
+    decrypt_tail zdec encd allowed (Some name) (em_ciphertext obj') (em_tag obj') cek iv aad
+      = Ok (em_plaintext obj).
+  Proof.
+    intros ence encd allowed obj name cek iv aad obj' AEAD Z L H.
+    apply encrypt_leaves_plaintext in H. destruct H as [P [_ [m [E [_ Hz]]]]].
+    destruct (Hz name Z) as [G M]. split; [exact P|].
+    unfold decrypt_tail, decrypt_tailL. rewrite (AEAD _ _ _ E). rewrite G.
+    unfold decompressL. simpl. subst m. apply roundtrip. exact L.
+  Qed.
+
+  Lemma reencrypt_rt : forall ence encd allowed obj name cek iv aad obj1 cek2 iv2 aad2 obj2,
+    (forall m ct tag, ence m cek2 iv2 aad2 = Ok (ct, tag) -> encd ct tag cek2 iv2 aad2 = Ok m) ->
+    em_zip obj = Some name -> blen (em_plaintext obj) <= zip_max_size ->
+    fst (encrypt_tailL zcomp ence allowed obj cek iv aad) = Ok obj1 ->
+    fst (encrypt_tailL zcomp ence allowed obj1 cek2 iv2 aad2) = Ok obj2 ->
+    em_plaintext obj2 = em_plaintext obj /\
+    decrypt_tail zdec encd allowed (Some name) (em_ciphertext obj2) (em_tag obj2) cek2 iv2 aad2
+      = Ok (em_plaintext obj).
+  Proof.
+    intros ence encd allowed obj name cek iv aad obj1 cek2 iv2 aad2 obj2 AEAD Z L H1 H2.
+    apply encrypt_leaves_plaintext in H1. destruct H1 as [P1 [Z1 _]].
+    rewrite <- P1. apply encrypt_decrypt_rt with (ence := ence); try assumption.
+    - rewrite Z1. exact Z.
+    - rewrite P1. exact L.
   Qed.
 
   (* the boolean instance checker is implied by the contract *)
